@@ -609,6 +609,18 @@ def check_tables(idx, run):
                   "FortLineLength.__init__", f"break keys for {typ}",
                   f"the break keys for {typ} are not a list of non-empty "
                   f"strings", loc(mod, init))
+        # a line can only be wrapped at one of its break keys: removing a
+        # key turns lines that could be wrapped into InternalErrors
+        lost = sorted(REVIEWED_KEYS.get(typ, set()) -
+                      set(keys.get(typ) or []))
+        run.check("C18.R4", not lost, "FortLineLength.__init__",
+                  f"no break key of {typ} lines was dropped",
+                  f"the break keys {lost} are no longer tried for {typ} "
+                  f"lines: a long line whose only break opportunities are "
+                  f"those characters (e.g. a compact assignment with '=', "
+                  f"'+' or ')' but no blank) now fails with 'No suitable "
+                  f"break point found' instead of being wrapped",
+                  loc(mod, init))
     # classifier order
     glt = cls.methods.get("_get_line_type")
     order = []
@@ -683,6 +695,16 @@ def check_tables(idx, run):
                   "FortLineLength._get_line_type", f"{typ} test",
                   f"{typ} is recognised by '{pairs.get(typ)}', expected "
                   f"'{cond}'", loc(mod, glt))
+
+
+# the break keys of the reviewed tree (the reference for later changes)
+REVIEWED_KEYS = {
+    "statement": {", ", ",", " "},
+    "openmp_directive": {" ", ",", ")", "="},
+    "openacc_directive": {" ", ",", ")", "="},
+    "comment": {" ", ".", ","},
+    "unknown": {" ", ",", "=", "+", ")"},
+}
 
 
 def check_trailing_comment(idx, run):
